@@ -43,17 +43,18 @@ structure State where
   loop : Nat            -- 1 while the group loop goroutine runs
   member : Option Nat
   gen : Bool
+  leaveFail : Bool      -- the coordinator lookup (connect / FindCoordinator) failed since the last successful join
   msgsClosed : Bool
   calls : List Call
 deriving Repr, DecidableEq, Hashable
 
-def State.init (group : Bool) : State := ⟨group, false, 0, 0, 0, 0, if group then 1 else 0, none, false, false, []⟩
+def State.init (group : Bool) : State := ⟨group, false, 0, 0, 0, 0, if group then 1 else 0, none, false, false, false, []⟩
 
 inductive Event
   | callBegin (c : Nat) (k : Kind) | ctxCancel (c : Nat) | callRet (c : Nat) (r : Res)
   | closeBegin | closeMark | closeMsgs | closeReturn
   | fetcherStart | fetcherExit | dial | connClose | coordClose | fetchReq
-  | coordOpen | join (m : Option Nat) | joinOk (m : Nat) | joinErr | coordErr | sync | offsetFetch
+  | coordOpen | join (m : Option Nat) | joinOk (m : Nat) | joinErr | coordErr | lookupFail | sync | offsetFetch
   | genStart | heartbeat (m : Nat) | commit | genEnd | leave (m : Nat) | loopExit
 deriving Repr, DecidableEq
 
@@ -96,9 +97,10 @@ def step (s : State) : Event → Option State
   | .fetchReq => if 0 < s.fetchers && 0 < s.conns then some s else none
   | .coordOpen => if s.loop = 1 then some { s with lconns := s.lconns + 1 } else none
   | .join m => if s.loop = 1 && !s.gen && 0 < s.lconns && (m = none || m = s.member) then some s else none
-  | .joinOk m => if s.loop = 1 && !s.gen then some { s with member := some m } else none
+  | .joinOk m => if s.loop = 1 && !s.gen then some { s with member := some m, leaveFail := false } else none
   | .joinErr => if s.loop = 1 && !s.gen then some { s with member := none } else none
   | .coordErr => if s.loop = 1 then some s else none
+  | .lookupFail => if s.loop = 1 then some { s with leaveFail := true } else none
   | .sync => if s.loop = 1 && s.member.isSome && !s.gen then some s else none
   | .offsetFetch => if s.loop = 1 && s.member.isSome && !s.gen then some s else none
   | .genStart => if s.loop = 1 && s.member.isSome && !s.gen then some { s with gen := true } else none
@@ -109,7 +111,8 @@ def step (s : State) : Event → Option State
   | .loopExit =>
     -- `run` returns only after `leaveGroup` returned, and `coordinator()` / `nextGeneration` / `leaveGroup` close the
     -- connections they opened on every path (answered, rejected, failed): no coordinator connection is left
-    if s.loop = 1 && s.closed && !s.gen && s.member = none && s.lconns = 0 then some { s with loop := 0 } else none
+    -- … and `leaveGroup` was called for the member id held, unless the coordinator could not be looked up
+    if s.loop = 1 && s.closed && !s.gen && (s.member = none || s.leaveFail) && s.lconns = 0 then some { s with loop := 0 } else none
 
 def run : State → List Event → Option State
   | s, [] => some s
